@@ -92,6 +92,42 @@ class Case:
             for v in ctx.input_vars:
                 if str(v).endswith(".ind"):
                     ctx.assume.append(v == z3.StringVal(self.opts["ind"]))
+        if self.opts.get("iv_class"):
+            # shard: every Time input is an interval of this shape (a whole period of one indicator, or none of them)
+            from vt.sqlsmt import cal as _cal
+            for name_, t_ in self.inputs.items():
+                for r_ in t_.rows:
+                    for cn_, ty_, role_, nl_ in t_.comps:
+                        if r_.cols[cn_].kind != "iv":
+                            continue
+                        i_ = t_.rows.index(r_)
+                        y1, m1, c1, y2, m2, c2 = [z3.Int("%s.%s.%d.%s" % (name_, cn_, i_, f)) for f in ("y1", "m1", "c1", "y2", "m2", "c2")]
+                        d1, d2 = r_.cols[cn_].fields["d1"].val, r_.cols[cn_].fields["d2"].val
+                        shapes = {
+                            "D": z3.And(y1 == y2, m1 == m2, c1 == c2),
+                            "A": z3.And(y1 == y2, m1 == 1, c1 == 1, m2 == 12, c2 == 31),
+                            "S": z3.And(y1 == y2, c1 == 1, z3.Or(z3.And(m1 == 1, m2 == 6, c2 == 30), z3.And(m1 == 7, m2 == 12, c2 == 31))),
+                            "Q": z3.And(y1 == y2, c1 == 1, z3.Or(m1 == 1, m1 == 4, m1 == 7, m1 == 10), m2 == m1 + 2, c2 == _cal.dim(y2, m2)),
+                            "M": z3.And(y1 == y2, m1 == m2, c1 == 1, c2 == _cal.dim(y1, m1)),
+                            "W": z3.And(_cal.weekday(d1) == 1, d2 == d1 + 6),
+                        }
+                        k_ = self.opts["iv_class"]
+                        if k_ in shapes:
+                            ctx.assume.append(shapes[k_])
+                        else:
+                            # X1 / X2 / X3: no period shape; same month / same year / different years
+                            ctx.assume.append(z3.Not(z3.Or(*shapes.values())))
+                            ctx.assume.append({"X1": z3.And(y1 == y2, m1 == m2), "X2": z3.And(y1 == y2, m1 != m2), "X3": y1 != y2}[k_])
+                        # redundant theorems of the calendar (valid triples): the day number is injective and monotone in (y, m, c)
+                        ctx.assume.append((d1 == d2) == z3.And(y1 == y2, m1 == m2, c1 == c2))
+                        ctx.assume.append((d1 < d2) == z3.Or(y1 < y2, z3.And(y1 == y2, z3.Or(m1 < m2, z3.And(m1 == m2, c1 < c2)))))
+                        if k_ == "W":
+                            # the Monday d1 is the first day of ISO week (G, V): stated forward, so the ISO inverse is known
+                            G, V = z3.Int("%s.%s.%d.G" % (name_, cn_, i_)), z3.Int("%s.%s.%d.V" % (name_, cn_, i_))
+                            cx = _cal.Cal(None)
+                            gy, gw = cx.iso(d1)
+                            ctx.assume.append(z3.And(G >= y1 - 1, G <= y1 + 1, V >= 1, V <= _cal.weeks_in_year(G), d1 == _cal.date_from_iso(G, V, z3.IntVal(1)),
+                                                     gy == G, gw == V))
         if self.opts.get("years"):
             lo, hi = self.opts["years"]
             for v in ctx.input_vars:
@@ -154,6 +190,10 @@ class Case:
                         if sv.kind == "tp":
                             y, i_, n_ = self._rand_tp(rng, self.opts.get("ind"))
                             asg[sv.fields["year"].val], asg[sv.fields["ind"].val], asg[sv.fields["num"].val] = y, i_, n_
+                        elif sv.kind == "iv":
+                            a_, b_ = self._rand_iv(rng)
+                            for f_, v_ in zip(("y1", "m1", "c1", "y2", "m2", "c2"), (a_.year, a_.month, a_.day, b_.year, b_.month, b_.day)):
+                                asg[z3.Int("%s.%s.%d.%s" % (name, cn, i, f_))] = v_
                         else:
                             asg[sv.val] = self._rand_val(rng, "int64" if sv.kind == "int" and self.opts.get("int64") else sv.kind, role)
             subs = [(k, _z3val(k, v)) for k, v in asg.items()]
@@ -167,6 +207,31 @@ class Case:
                 if s.check() == z3.sat:
                     return asg, subs
         raise RuntimeError("no valid random assignment")
+
+    @staticmethod
+    def _rand_iv(rng):
+        """interval: a whole period of some indicator, or an arbitrary pair of days (day numbers)"""
+        import datetime
+        y = rng.choice([2019, 2020, 2021, 2024])
+        e = datetime.date(1970, 1, 1)
+        dn = lambda d: d  # noqa: E731  (dates, not day numbers)
+        k = rng.choice(["A", "S", "Q", "M", "W", "D", "x", "x"])
+        if k == "A":
+            return dn(datetime.date(y, 1, 1)), dn(datetime.date(y, 12, 31))
+        if k == "S":
+            s_ = rng.choice([1, 2])
+            return (dn(datetime.date(y, 1, 1)), dn(datetime.date(y, 6, 30))) if s_ == 1 else (dn(datetime.date(y, 7, 1)), dn(datetime.date(y, 12, 31)))
+        if k in ("Q", "M"):
+            m = rng.choice([1, 4, 7, 10]) if k == "Q" else rng.choice([1, 2, 3, 6, 11, 12])
+            m2 = m + (3 if k == "Q" else 1)
+            end = (datetime.date(y + (m2 > 12), (m2 - 1) % 12 + 1, 1) - datetime.timedelta(days=1))
+            return dn(datetime.date(y, m, 1)), dn(end)
+        if k == "W":
+            d = datetime.date(y, 1, 1) + datetime.timedelta(days=rng.choice([0, 3, 100, 360, 364]))
+            d -= datetime.timedelta(days=d.weekday())
+            return d, d + datetime.timedelta(days=6)
+        d = datetime.date(y, rng.choice([1, 2, 6, 12]), rng.choice([1, 2, 15, 28]))
+        return (d, d) if k == "D" else (d, d + datetime.timedelta(days=rng.choice([1, 6, 7, 29, 30, 89, 364, 365])))
 
     @staticmethod
     def _rand_tp(rng, ind=None):
@@ -220,6 +285,8 @@ class Case:
                         d[cn] = None
                     elif sv.kind == "tp":
                         d[cn] = render_tp(value_of(sv.fields["year"].val), value_of(sv.fields["ind"].val), value_of(sv.fields["num"].val))
+                    elif sv.kind == "iv":
+                        d[cn] = render_iv(value_of(sv.fields["d1"].val), value_of(sv.fields["d2"].val))
                     else:
                         d[cn] = value_of(sv.val)
                 rows.append((value_of(r.ord[0]), d))
@@ -326,7 +393,18 @@ class Case:
             parts = [self._cell(SV(k2, FALSE_, sv.fields[k].val), subs, skip_cols, c) for k, k2 in (("year", "int"), ("ind", "str"), ("num", "int"))]
             if c in skip_cols:
                 return None
+            if isinstance(parts[2], int) and parts[2] < 0:
+                skip_cols.add(c)        # not a period spelling (marker value): nothing to render
+                return None
             return render_tp(*parts)
+        if sv.kind == "iv":
+            nl = self._cell(SV("bool", FALSE_, sv.null), subs, skip_cols, c)
+            if nl:
+                return None
+            parts = [self._cell(SV("int", FALSE_, sv.fields[k].val), subs, skip_cols, c) for k in ("d1", "d2")]
+            if c in skip_cols:
+                return None
+            return render_iv(*parts)
         nl = _simp(z3.substitute(sv.null, *subs))
         if not (z3.is_true(nl) or z3.is_false(nl)):
             if _has_uf(nl):
@@ -349,6 +427,10 @@ class Case:
         if s.check() != z3.sat:
             raise RuntimeError("assumptions unsat under concrete inputs")
         return s.model().eval(z3.substitute(term, *subs), model_completion=True)
+
+
+def render_iv(d1, d2):
+    return "%s/%s" % (_date_of(int(d1)).isoformat(), _date_of(int(d2)).isoformat())
 
 
 def render_tp(y, i, n):
